@@ -179,6 +179,10 @@ func c11Run(c *mon.Case, content string, k int, ops string) bool {
 func c11BigContent(spec string) string {
 	var n, variant int
 	fmt.Sscanf(spec, "gen:%d:%d", &n, &variant)
+	if variant >= 100 { // one line of n-40 letters, its line break (LF, CR, CRLF, LFCR by variant), then short lines
+		brk := []string{"\n", "\r", "\r\n", "\n\r"}[variant%4]
+		return strings.Repeat("w", n-40) + brk + strings.Repeat("ab\n", 20)[:40-len(brk)]
+	}
 	pats := []string{"\n", "\r", "\r\n", "\n\r", "\n\n", "\r\r"}
 	var b strings.Builder
 	b.Grow(n + 32)
@@ -512,7 +516,7 @@ func buildC11(cfg *mon.Config) []*mon.Sub {
 		Exec: c11Exec(0),
 	}
 	huge := &mon.Sub{
-		Name: "contents-beyond-65535-characters", Rule: "generated contents of 65 535, 65 536, 65 537, 70 000 and 131 073 characters made of lines of 0..19 letters (blank lines are frequent) ended by LF, CR, CRLF, LFCR, LF LF and CR CR in rotation: read to the end, un-read 1500 characters one by one, re-read, jump back in blocks of 33..40 and of 2 and 3, reset, read 3000 and un-read 700; the model compared after every operation; a case is one content",
+		Name: "contents-beyond-65535-characters", Rule: "generated contents of 65 535, 65 536, 65 537, 70 000 and 131 073 characters made of lines of 0..19 letters (blank lines are frequent) ended by LF, CR, CRLF, LFCR, LF LF and CR CR in rotation - plus contents that begin with one line of 65 535 and more letters (its line break in each of the four styles is un-read), and contents of more than 2^20 characters with line breaks un-read in the second half: read to the end, un-read 1500 characters one by one, re-read, jump back in blocks of 33..40 and of 2 and 3, reset, read 3000 and un-read 700; the model compared after every operation; a case is one content",
 		Exhaustive: true, DistinctByGen: true, Floor: 5,
 		Gen: func(emit func(string)) {
 			sizes := []int{65535, 65536, 65537, 70000}
@@ -529,11 +533,24 @@ func buildC11(cfg *mon.Config) []*mon.Sub {
 					emit(c11Payload(fmt.Sprintf("gen:%d:%d", n, variant), 0, ops))
 				}
 			}
+			// one very long line: columns beyond 65 535, and its line break un-read
+			for _, n := range []int{65535 + 40, 65536 + 40, 65537 + 40, 70000, 131073 + 40} {
+				for variant := 100; variant < 104; variant++ {
+					ops := strings.Repeat("r", n+1) + strings.Repeat("u", 60) + strings.Repeat("r", 61) + strings.Repeat("M", 18) + strings.Repeat("r", 30) + "A" + strings.Repeat("r", 50) + strings.Repeat("u", 45)
+					emit(c11Payload(fmt.Sprintf("gen:%d:%d", n, variant), 0, ops))
+				}
+			}
+			// beyond 2^20 characters, un-reading line breaks in the second half
+			for variant := 0; variant < cfg.N(2, 6); variant++ {
+				n := 1<<20 + 1000 + variant
+				ops := strings.Repeat("r", n+1) + strings.Repeat("u", 400) + strings.Repeat("r", 401) + strings.Repeat("M", 120) + strings.Repeat("r", 200) + strings.Repeat("u", 150)
+				emit(c11Payload(fmt.Sprintf("gen:%d:%d", n, variant), 0, ops))
+			}
 		},
 		Exec: c11Exec(0),
 	}
 	volume := &mon.Sub{
-		Name: "many-scanners-over-distinct-contents", Rule: fmt.Sprintf("%d scanners, one after the other and on all shards at once, each over its own random 15-character content (10 letters, LF, 4 letters; all of the same length): every read must return that content's characters and the final position must be line 2, column 4 - whatever earlier or concurrent scanners in the process were created over (a volume at which anything shared between scanners and keyed by less than the whole text shows)", 16*cfg.N(2000000, 20000000)),
+		Name: "many-scanners-over-distinct-contents", Rule: fmt.Sprintf("%d scanners, one after the other and on all shards at once, each over its own random 15-character content (10 letters, LF, 4 letters; all of the same length): every read must return that content's characters and the final position must be line 2, column 4 - whatever earlier or concurrent scanners in the process were created over; every 5003rd scanner is read half, set aside while the next 5003 come and go, then read to its end and reset (a volume at which anything shared between scanners and keyed by less than the whole text shows)", 16*cfg.N(2000000, 20000000)),
 		Exhaustive: true, DistinctByGen: true, Floor: 16,
 		Gen: func(emit func(string)) {
 			rio.VerifScannerHook = nil // hook H2 keeps a table per content: switched off for this volume run (sub-checks run one after the other)
@@ -547,6 +564,9 @@ func buildC11(cfg *mon.Config) []*mon.Sub {
 			fmt.Sscanf(c.Payload, "vol:%d:%d", &shard, &count)
 			r := mon.NewRng(uint64(shard)+77, "c11-volume")
 			buf := make([]byte, 15)
+			var old *rio.StringScanner
+			var oldContent string
+			oldAt := 0
 			for i := 0; i < count; i++ {
 				x, y := r.Next(), r.Next()
 				for k := 0; k < 10; k++ {
@@ -560,6 +580,26 @@ func buildC11(cfg *mon.Config) []*mon.Sub {
 				}
 				content := string(buf)
 				s := rio.NewStringScanner(content)
+				if i%5003 == 0 {
+					// this one stays in use while thousands of others come and go
+					if old != nil {
+						for k := oldAt; k < 15; k++ {
+							if ch := old.Read(); ch != rune(oldContent[k]) {
+								c.Failf("read returned the wrong character", "a scanner over %q, half read, then set aside while 5003 other scanners were created and used on this shard (and more on others): read #%d returned %q", oldContent, k, ch)
+								return
+							}
+						}
+						old.Reset()
+						if ch := old.Read(); ch != rune(oldContent[0]) {
+							c.Failf("read returned the wrong character", "a long-lived scanner over %q after Reset: first read returned %q", oldContent, ch)
+							return
+						}
+					}
+					old, oldContent, oldAt = rio.NewStringScanner(content), content, 7
+					for k := 0; k < oldAt; k++ {
+						old.Read()
+					}
+				}
 				for k := 0; k < 15; k++ {
 					if ch := s.Read(); ch != rune(buf[k]) {
 						c.Failf("read returned the wrong character", "scanner #%d of this shard over %q: read #%d returned %q", i, content, k, ch)
